@@ -9,6 +9,8 @@
               [5; c] map | [6; c] flatMap | [7; c] keyBy | [8] mapValues | [9] persist | [10] zipWithIndex
               | [11; fi; where] faulty stage | [12] logging index tag (these ops are accepted in kind 0 too)
               -> VTup [num_partitions; glom; indices; indices logged per attempt during the final job]
+     kind 5  [src; VList ops; VList sel]: the pipeline, then ONE job on the partitions sel (positions in
+              rdd.partitions(), any order; [] = all) -> VTup [VList [VTup [tc.partition_id; contents]]; logged indices]
      kind 1  summary    [N; n|None]                 -> VList [VTup [count; first|None]] of parallelize(range(N), n)
      kind 2  hash       [key]                       -> VTup [portable_hash key; _hash key]
      kind 3  probe      [N; n; VList is]            -> VTup [n; VList [VTup [count_i; first_i|None]]]  (n > 1) *)
@@ -20,10 +22,70 @@ Open Scope Z_scope.
 
 Definition ph := portable_hash no_runtime_hash.
 
+(* number of decimal digits of a non-negative integer (len(str(z))) *)
+Fixpoint ndigits_fuel (fuel : nat) (z : Z) : Z :=
+  match fuel with
+  | O => 1
+  | S k => if z <? 10 then 1 else 1 + ndigits_fuel k (z / 10)
+  end.
+Definition ndigits (z : Z) : Z := ndigits_fuel (Z.to_nat (Z.log2 (Z.abs z) + 2)) (Z.abs z).
+Definition int_str_len (z : Z) : Z := ndigits z + (if z <? 0 then 1 else 0).
+
+(* a decimal.Decimal travels as the tagged tuple ('$dec', str(d)); only plain notations with an
+   all-zero fraction are generated ('2', '2.00', '-10.0') *)
+Definition dec_tag : list N := [36; 100; 101; 99]%N.
+Definition as_dec (k : val) : option (list N) :=
+  match k with VTup [VStr t; VStr s] => if list_N_eqb t dec_tag then Some s else None | _ => None end.
+Fixpoint dec_digits (s : list N) (acc : Z) : Z :=
+  match s with
+  | [] => acc
+  | c :: s' => if (48 <=? c)%N && (c <=? 57)%N then dec_digits s' (10 * acc + (Z.of_N c - 48)) else acc
+  end.
+Definition dec_int (s : list N) : Z :=
+  match s with 45%N :: s' => - dec_digits s' 0 | _ => dec_digits s 0 end.
+
+(* repr / str of an integral float below 1e16: '<int>.0', '-0.0' *)
+Definition float_repr_len (f : PrimFloat.float) : Z :=
+  match FloatOps.Prim2SF f with
+  | SpecFloat.S754_zero s => if s then 4 else 3
+  | SpecFloat.S754_finite s m e =>
+      let z := if 0 <=? e then Zpos m * 2 ^ e else Zpos m / 2 ^ (- e) in
+      ndigits z + 2 + (if s then 1 else 0)
+  | _ => 3
+  end.
+
+(* len(repr(k)) and len(str(k)) on None / bool / int / integral float / Decimal *)
+Definition repr_len (is_repr : bool) (k : val) : Z :=
+  match as_dec k with
+  | Some s => Z.of_nat (length s) + (if is_repr then 11 else 0)
+  | None =>
+      match k with
+      | VNone => 4
+      | VBool b => if b then 4 else 5
+      | VInt z => int_str_len z
+      | VFloat f => float_repr_len f
+      | _ => 0
+      end
+  end.
+
+(* len(type(k).__name__) *)
+Definition type_name_len (k : val) : Z :=
+  match as_dec k with
+  | Some _ => 7
+  | None =>
+      match k with
+      | VNone => 8 | VBool _ => 4 | VInt _ => 3 | VFloat _ => 5 | VStr _ => 3 | VTup _ => 5 | VList _ => 4
+      | VErr _ => 0
+      end
+  end.
+
 (* the partition-function library (Python twins in py/c07.py, FUNCS) *)
 Definition fz (code : Z) (k : val) : Z :=
   match code, k with
-  | 0, _ => rdd_hash no_runtime_hash k
+  | 0, _ => match as_dec k with
+            | Some s => rdd_hash_mask (py_hash_int (dec_int s))     (* hash(Decimal) of an integral value *)
+            | None => rdd_hash no_runtime_hash k
+            end
   | 1, VInt z => z
   | 2, VInt z => - z
   | 3, VInt z => z / 3
@@ -31,6 +93,9 @@ Definition fz (code : Z) (k : val) : Z :=
   | 5, _ => 0
   | 6, VStr s => Z.of_nat (length s)
   | 6, VTup l | 6, VList l => Z.of_nat (length l)
+  | 7, _ => type_name_len k
+  | 8, _ => repr_len true k
+  | 9, _ => repr_len false k
   | _, _ => 0
   end.
 
@@ -76,7 +141,7 @@ Definition dec_op (v : val) : option op :=
   match v with
   | VTup [VInt 0; VInt m] => Some (OCoalesce m)
   | VTup [VInt 1; VInt m] => Some (ORepartition m)
-  | VTup [VInt 2; VInt n; VInt c] => if (0 <=? c) && (c <=? 6) then Some (OPartitionBy n (fz c)) else None
+  | VTup [VInt 2; VInt n; VInt c] => if (0 <=? c) && (c <=? 9) then Some (OPartitionBy n (fz c)) else None
   | VTup [VInt 3] => Some OZipUid
   | VTup [VInt 4] => Some OTagIndex
   | VTup [VInt 5; VInt c] => if (0 <=? c) && (c <=? 3) then Some (OMap (gmap c)) else None
@@ -130,6 +195,20 @@ Fixpoint dec_ops (l : list val) : option (list op) :=
   | v :: l' => match dec_op v, dec_ops l' with Some o, Some r => Some (o :: r) | _, _ => None end
   end.
 
+(* Context.runJob(rdd, func, partitions=[rdd.partitions()[i] for i in sel]): the chosen Partition objects *)
+Fixpoint select_parts (r : rdd) (sel : list Z) : option (list (Z * list val)) :=
+  match sel with
+  | [] => Some []
+  | i :: sel' =>
+      match py_idx (length r) i with
+      | Some j => match nth_error r j, select_parts r sel' with
+                  | Some ip, Some rest => Some (ip :: rest)
+                  | _, _ => None
+                  end
+      | None => None
+      end
+  end.
+
 Definition enc_rdd (r : rdd) : val :=
   VTup [VInt (num_partitions r); vparts (glom r); vints (indices r)].
 
@@ -152,6 +231,27 @@ Definition run (c : val) : val :=
           | Err e => VErr e
           end
       | _, _ => VBad
+      end
+  | VTup [VInt 5; src; VList ops; VList sel] =>
+      match dec_src src, dec_ops ops, all_Z sel with
+      | Some s, Some os, Some sel' =>
+          match run_pipeline s os with
+          | Ok r =>
+              let chosen := if match sel' with [] => true | _ => false end then Some r else select_parts r sel' in
+              match chosen with
+              | Some ch =>
+                  let j := run_job (fun _ => []) (fun _ p => p) ch in
+                  match fst j with
+                  | Ok ps =>
+                      VTup [VList (map (fun ip => VTup [VInt (fst (fst ip)); VList (snd ip)]) (combine ch ps));
+                            vints (if existsb is_log (final_segment ops) then snd j else [])]
+                  | Err e => VErr e
+                  end
+              | None => VErr "IndexError"
+              end
+          | Err e => VErr e
+          end
+      | _, _, _ => VBad
       end
   | VTup [VInt 1; VInt N; n] =>
       if N <? 0 then VBad else
